@@ -188,3 +188,64 @@ func VerifC24AuthenticateObject() {
 }
 
 type c24chain struct{ c30chain }
+
+// VerifC24TokenCache: two objects authenticated one after the other with one
+// sessions cache. Both carry a V1 session token with the same body; the second
+// token's signature may differ from the first one's. The second object is
+// accepted only if its own token (body and signature) was authenticated: a
+// verdict cached for another signature does not count.
+func VerifC24TokenCache() {
+	auth := map[byte]bool{} // signature byte -> verdict given
+	asked := map[byte]int{}
+	VerifHookDecodeKey = func(b []byte) (*ecdsa.PublicKey, error) {
+		if len(b) != 1 || b[0] < 1 || b[0] > 3 {
+			return nil, errors.New("undecodable key")
+		}
+		return c24key(int64(b[0])), nil
+	}
+	neofsecdsa.VerifHookVerifyKey = func(int, ecdsa.PublicKey, []byte, []byte) bool { return true }
+	user.VerifHookFromKey = func(pub ecdsa.PublicKey) user.ID { return c24user(byte(pub.X.Int64())) }
+	VerifHookAuthToken = func(v2 bool, signed []byte, issuer user.ID, sig neofscrypto.Signature, sigSet bool) error {
+		s := sig.Value()[0]
+		asked[s]++
+		if !auth[s] {
+			return errors.New("signature mismatch")
+		}
+		return nil
+	}
+	mk := func(sigByte byte) object.Object {
+		var obj object.Object
+		ver := version.Current()
+		obj.SetVersion(&ver)
+		obj.SetContainerID(cid.ID{1})
+		obj.SetOwner(c24user(1))
+		obj.SetID(oid.ID{9})
+		var t session.Object
+		t.SetID(uuid.UUID{1, 2, 3, 4, 5, 6, 0x47, 8, 0x89})
+		t.SetAuthKey((*neofsecdsa.PublicKey)(c24key(2)))
+		t.SetIssuer(c24user(1))
+		t.BindContainer(cid.ID{1})
+		t.SetExp(10)
+		t.AttachSignature(neofscrypto.NewSignatureFromRawKey(neofscrypto.ECDSA_DETERMINISTIC_SHA256, []byte{2, 1}, []byte{sigByte}))
+		obj.SetSessionToken(&t)
+		sig := neofscrypto.NewSignatureFromRawKey(neofscrypto.ECDSA_DETERMINISTIC_SHA256, []byte{2}, []byte{0xEE})
+		obj.SetSignature(&sig)
+		return obj
+	}
+	cache := isessions.NewObjectSessionsCache(4)
+	res := nnscore.NewResolver(c24nns{})
+	s1 := byte(1)
+	s2 := byte(1 + vrt.Choice("secondTokenSignature", 2)) // the same signature or another one
+	auth[1] = vrt.Bool("firstSignatureIsTheIssuers")
+	auth[2] = vrt.Bool("otherSignatureIsTheIssuers")
+	err1 := AuthenticateObject(mk(s1), &c24chain{}, cache, res)
+	vrt.Assert((err1 == nil) == auth[1], "the first object is accepted exactly if its token is authentic")
+	err2 := AuthenticateObject(mk(s2), &c24chain{}, cache, res)
+	if err2 == nil {
+		vrt.Assert(auth[s2], "an object is accepted only if its own session token (with its own signature) was authenticated")
+		vrt.Reach("accepted")
+	} else {
+		vrt.Assert(!auth[s2], "an object with an authentic token is accepted")
+		vrt.Reach("rejected")
+	}
+}
